@@ -190,6 +190,9 @@ def strict_realised_formula(shape, req):
     return out + [1]
 
 
+STRICT_CASES = []   # (shape, rank, code's strict answer, ranks returned by tensor_train) for the Coq-evaluated comparison
+
+
 def check_validate_strict(chk, X, rank, factors):
     """validate_tt_rank(..., allow_overparametrization=False) is documented to return the rank realisable by TT-SVD:
     compare it with the ranks tensor_train really returned and with the proved closed form (C09_tensor_train_realised_rank)"""
@@ -202,6 +205,8 @@ def check_validate_strict(chk, X, rank, factors):
     req = norm_rank_tt(len(shape), rank)
     realised = [1] + [int(f.shape[2]) for f in factors]
     chk.hist("validate_strict_checked", "tt")
+    if len(STRICT_CASES) < 400 and max(shape) <= 50 and max(req) <= 400:
+        STRICT_CASES.append((shape, rank, strict, realised))
     if realised != strict_realised_formula(shape, req):
         chk.finding(EP["tt"], {"function": "tt", "tensor": np.asarray(X), "rank": rank, "options": {}},
                     f"tensor_train: returned ranks {realised} are not min(previous bond * size, remaining size, request) = {strict_realised_formula(shape, req)}", "C09_realised_rank")
@@ -751,6 +756,7 @@ def load_corpus():
 def run(chk):
     rng = random.Random(chk.seed)
     nrng = np.random.RandomState(rng.randrange(2 ** 31))
+    del STRICT_CASES[:]
     chk.build_proofs()
     # common.print_assumptions also captures the header line "Axioms:" that Coq prints before the list; it is not an axiom
     chk.axioms = {k: [a for a in v if a != "Axioms"] for k, v in (getattr(chk, "axioms", None) or {}).items()}
@@ -796,6 +802,14 @@ def run(chk):
             chk.sample({"stream": "correspondence", "function": kind, "shape": list(X.shape), "rank": rank, "options": {k: str(v_) for k, v_ in extra.items()},
                         "class": info["cls"], "outcome": st, "svd_calls": len(calls),
                         "factor_shapes": ([list(f.shape) for f in (v[1] if kind == "tucker" else v)] if st == "ok" else str(v)[:80])})
+    # validate_tt_rank(allow_overparametrization=False) as the code is + the realised ranks of these correspondence runs, evaluated in Coq
+    n_main = len(cases)
+    for (shape, rank_s, strict, realised) in list(STRICT_CASES):
+        cid = len(cases)
+        shp_lit = "(mk " + C.nat_list(list(shape)) + " (@nil Q))"
+        cases.append(f"({cid}%nat, KStrict, {shp_lit}, {rank_lit(rank_s)}, (@nil tape_entry), (ORanks {C.nat_list(strict)} {C.nat_list(realised)}))")
+        meta.append(("strict", np.zeros(shape), rank_s, {}, {"cls": "strict", "strict": strict, "realised": realised}, "ok"))
+    chk.cov["strict_rank_cases_in_coq"] = len(cases) - n_main
     failing, n_eval, broken = C.run_case_shards("C09", HEADER, "case", cases, shard=12 if tier == "quick" else 40, timeout=900)
     chk.checker_cmds.append("coqc (vm_compute) on generated build/cases/C09/*.v: Corr.C09.failing")
     chk.cov["traces_validated_against_impl"] = n_eval
